@@ -519,3 +519,33 @@ def ensemble_terminated(h):
                 "implies(kind == 'lim', fc >= mf or gens >= mi) and implies(kind == 'sig', early) and implies(kind == 'term', tb)", kind=kind, **env)
     else:
         h.check('result-is-bool', 'r is True or r is False', r=r)
+
+
+@contract('C09/LatticeSolver._InitialPoints/integer-nbins', ['C09'], 'mystic/ensemble.py::LatticeSolver._InitialPoints', native=False)
+def lattice_points_integer_bins(h):
+    """nbins given as ONE integer N (the total): exactly N members are started -- also for a prime N -- each at the centre
+    of its own cell of some N-cell grid inside the ranges.  randomly_bin is replaced by its specification: a factorisation
+    of N over the dimensions when exact=True, of N-1 for a prime N > 3 when exact=False."""
+    if not h.is_sym():
+        h.unsupported('symbolic only')
+    N = h.choice('nbins', [1, 4, 5, 6, 7])
+    D = 2
+    lo, up = h.vec('lower', D), h.vec('upper', D)
+    h.assume(' and '.join('lo[%d] <= up[%d]' % (i, i) for i in range(D)), lo=lo, up=up)
+    fact = {1: (1, 1), 4: (2, 2), 5: (5, 1), 6: (2, 3), 7: (1, 7)}
+
+    def randomly_bin(I, c, args, kwargs):
+        n = args[0]
+        exact = kwargs.get('exact', args[3] if len(args) > 3 else True)
+        if not exact and n > 3 and n in (5, 7):
+            n = n - 1
+        return I.st.alloc('clist', list(fact[n]))
+    h.set_summaries({('mystic/math/grid.py', 'randomly_bin'): randomly_bin})
+    s = h.obj('mystic/ensemble.py::LatticeSolver', nDim=D, _nbins=N, _npts=N, _dist=None,
+              _strictMin=h.clist(list(h.st.heap[lo])), _strictMax=h.clist(list(h.st.heap[up])),
+              _defaultMin=h.clist([-1e3] * D), _defaultMax=h.clist([1e3] * D))
+    pts = h.call(h.getattr(s, '_InitialPoints'))
+    h.check('exactly-as-many-members-as-bins-requested', 'len(pts) == n', pts=pts, n=N)
+    h.check('every-member-starts-inside-the-ranges',
+            'forall(0, len(pts), lambda k: lo[0] <= pts[k][0] and pts[k][0] <= up[0] and lo[1] <= pts[k][1] and pts[k][1] <= up[1])',
+            pts=pts, lo=lo, up=up)
